@@ -339,10 +339,19 @@ impl<H: Host> Emulator<H> {
     /// Perform emulatio up to `emulation_limit` duration, returns actual elapsed duration
     pub fn emulate_frames(&mut self, emulation_limit: Duration) -> Result<EmulationInfo> {
         let stopwatch = H::EmulationStopwatch::new();
+        // Frames are counted across breakpoint stops. Frame which ended together with a breakpoint
+        // hit is reported now, so that it is not lost for the host
+        if let EmulationMode::FrameCount(frames) = self.mode {
+            if self.controller.frames_count() >= frames {
+                self.controller.reset_frame_counter();
+                return Ok(EmulationInfo {
+                    duration: stopwatch.measure(),
+                    stop_reason: EmulationStopReason::Completed,
+                });
+            }
+        }
         // frame loop
         loop {
-            // reset controller internal frame counter
-            self.controller.reset_frame_counter();
             'cpu: loop {
                 // Emulation step. if instant event happened then accept in and execute
                 self.cpu.emulate(&mut self.controller);
@@ -366,6 +375,7 @@ impl<H: Host> Emulator<H> {
                 match self.mode {
                     EmulationMode::FrameCount(frames) => {
                         if self.controller.frames_count() >= frames {
+                            self.controller.reset_frame_counter();
                             return Ok(EmulationInfo {
                                 duration: stopwatch.measure(),
                                 stop_reason: EmulationStopReason::Completed,
@@ -374,6 +384,7 @@ impl<H: Host> Emulator<H> {
                     }
                     EmulationMode::Max => {
                         if self.controller.frames_count() != 0 {
+                            self.controller.reset_frame_counter();
                             break 'cpu;
                         }
                     }
